@@ -2,6 +2,7 @@
 #![allow(clippy::all)]
 #![allow(dead_code)]
 
+mod alloc;
 #[macro_use]
 mod engine;
 mod doubles;
@@ -10,6 +11,9 @@ mod props;
 mod util;
 
 use engine::runner::{install_panic_hook, RunCfg, Tier};
+
+#[global_allocator]
+static GLOBAL: alloc::VerifAlloc = alloc::VerifAlloc;
 
 fn main() {
     let args: Vec<String> = std::env::args().collect();
@@ -31,6 +35,7 @@ fn main() {
     };
     let mut seed: u64 = std::env::var("VERIF_SEED").ok().and_then(|s| s.trim().parse::<i128>().ok()).map(|v| v as u64).unwrap_or(1);
     let mut replay: Option<String> = None;
+    let mut worker = false;
     let mut i = 2;
     while i < args.len() {
         match args[i].as_str() {
@@ -47,6 +52,7 @@ fn main() {
                 let seed = args.get(i).and_then(|s| s.parse::<u64>().ok()).unwrap_or(0);
                 std::process::exit(props::child(id, seed));
             }
+            "--worker" => worker = true,
             "--replay" => {
                 i += 1;
                 replay = args.get(i).cloned();
@@ -58,6 +64,9 @@ fn main() {
         }
         i += 1;
     }
+    if !worker && replay.is_none() {
+        std::process::exit(supervise(id, &args[2..]));
+    }
     let scale = std::env::var("VERIF_SCALE").ok().and_then(|s| s.parse::<f64>().ok()).unwrap_or(1.0);
     let cfg = RunCfg { tier, seed, scale, strict: replay.is_some(), known: vec![] };
     let Some((_, run)) = props::all().into_iter().find(|(pid, _)| *pid == id) else {
@@ -66,4 +75,69 @@ fn main() {
     };
     let code = run(&cfg, replay.as_deref());
     std::process::exit(code);
+}
+
+/// Runs the property in a child process so that memory corruption inside the code under test (heap
+/// corruption, segfault, abort) is reported as a violation instead of killing the check.
+fn supervise(id: &str, rest: &[String]) -> i32 {
+    use std::os::unix::process::ExitStatusExt;
+    use std::process::Command;
+    let exe = std::env::current_exe().expect("current_exe");
+    let run = |journal: Option<&std::path::Path>| {
+        let mut c = Command::new(&exe);
+        c.arg(id).args(rest).arg("--worker");
+        if let Some(j) = journal {
+            c.env("VERIF_JOURNAL", j).env("VERIF_WORKERS", "1");
+        }
+        c.status()
+    };
+    let st = match run(None) {
+        Ok(st) => st,
+        Err(e) => {
+            eprintln!("cannot spawn worker: {}", e);
+            return 2;
+        }
+    };
+    if let Some(code) = st.code() {
+        return code;
+    }
+    let sig = st.signal().unwrap_or(0);
+    eprintln!("[{}] worker process died with signal {} — re-running once with one worker and a case journal to locate the input", id, sig);
+    let root = engine::report::verif_root();
+    let dir = root.join("replays").join("out");
+    let _ = std::fs::create_dir_all(&dir);
+    let journal = dir.join(format!("{}-crash-journal.txt", id));
+    let _ = std::fs::remove_file(&journal);
+    let second = run(Some(&journal));
+    let located = second.as_ref().ok().map(|s| s.code().is_none()).unwrap_or(false);
+    let (lane, bytes, sched) = std::fs::read_to_string(&journal)
+        .ok()
+        .filter(|_| located)
+        .map(|t| {
+            let mut l = t.lines();
+            (l.next().unwrap_or("").to_string(), l.next().unwrap_or("").to_string(), l.next().unwrap_or("").to_string())
+        })
+        .unwrap_or_default();
+    let path = dir.join(format!("{}-crash-signal{}.json", id, sig));
+    let body = serde_json::json!({
+        "property": id,
+        "lane": lane,
+        "engine": "supervised worker process",
+        "bytes_hex": bytes,
+        "sched_hex": sched,
+        "signature": format!("process-crashed:signal-{}", sig),
+        "message": format!("the worker process running the property's lanes was killed by signal {} (memory corruption / abort inside the code under test){}", sig, if located { "; the journalled re-run crashed again on the recorded case" } else { "; the single-worker re-run did not crash, so no input is recorded" }),
+        "expect": "pass",
+    });
+    let _ = std::fs::write(&path, serde_json::to_string_pretty(&body).unwrap());
+    // evidence of the crash
+    let ev = serde_json::json!({
+        "property_id": id, "tier": "quick", "seed": 0, "level": "exploration",
+        "coverage": {"evaluations": 1, "distinct_nontrivial": 2, "rule": "worker crashed; see violation_details", "samples": [body.clone()], "violation_details": [body]},
+        "wall_s": 0.0, "violations": 1
+    });
+    let _ = std::fs::create_dir_all(root.join("evidence"));
+    let _ = std::fs::write(root.join("evidence").join(format!("{}.json", id)), serde_json::to_string_pretty(&ev).unwrap());
+    println!("VIOLATION property={} replay={}", id, path.display());
+    1
 }
